@@ -36,8 +36,8 @@ static std::string gen_spec(Rng &r, int maxlen, int maxsize, bool allow_corpus, 
   int c = (int)r.below(10);
   if (allow_corpus && c < 3) return strf("corpus:%d", (int)r.below(100000));
   if (allow_float_fixed && c == 3) {
-    static const char *fx[] = {"addw", "subb", "mulll", "addf", "accl", "copyb", "regpressure", "addq"};
-    return strf("fixed:%s", fx[r.below(maxsize >= 8 ? 8 : 7)]);
+    static const char *fx[] = {"addw", "subb", "mulll", "addf", "cmpltf", "convfl", "addf", "accl", "copyb", "regpressure", "allregs", "addq"};
+    return strf("fixed:%s", fx[r.below(maxsize >= 8 ? 12 : 11)]);
   }
   int len = 1 + (int)r.below(maxlen);
   unsigned fl = 0;
@@ -215,6 +215,7 @@ static std::vector<std::string> hist_gen(const GenArgs &ga) {
                     nsubjects > 0));
 
   // subjects (C17)
+  bool float_watch = false;
   static const char *native_t[] = {"avx", "sse", "mmx", "default"};
   static const char *foreign_t[] = {"c", "c64x-c", "neon", "mips", "altivec"};
   for (int s = 0; s < nsubjects; s++) {
@@ -222,7 +223,10 @@ static std::vector<std::string> hist_gen(const GenArgs &ga) {
     bool foreign = tgt == "c" || tgt == "c64x-c" || tgt == "neon" || tgt == "mips" || tgt == "altivec";
     int maxsize = tgt == "mmx" ? 4 : 8;
     std::string spec = gen_spec(sw, foreign ? 6 : maxlen, maxsize, use_corpus && tgt != "mmx", true);
-    if (spec == "fixed:regpressure") spec = "fixed:addw";   // that program is for mmx register exhaustion only (see the compile op)
+    if (spec == "fixed:regpressure" || spec == "fixed:allregs") spec = "fixed:addw";
+    // a sixth of the plans watch a program whose only float operation is a comparison or conversion (its results
+    // must not depend on the floating-point control state other kernels leave behind)
+    if (s == 0 && !foreign && tgt != "mmx" && sw.chance(1, 6)) { spec = sw.chance(1, 2) ? "fixed:cmpltf" : "fixed:convfl"; float_watch = true; }   // that program is for mmx register exhaustion only (see the compile op)
     unsigned long fmask = 0xffffffffUL;
     if ((tgt == "sse" || tgt == "mmx") && sw.chance(1, 3)) {
       // drop a random subset of optional CPU feature bits (bits 1.. of the flag word), keep base + 64bit/frame bits
@@ -292,7 +296,7 @@ static std::vector<std::string> hist_gen(const GenArgs &ga) {
     std::string l = "op " + op;
     if (op == "new") {
       int maxsize = pr.chance(1, 5) ? 4 : 8;
-      l += " spec=" + gen_spec(pr, maxlen, maxsize, use_corpus, P == "C06" || P == "C16");
+      l += " spec=" + gen_spec(pr, maxlen, maxsize, use_corpus, P == "C06" || P == "C16" || P == "C17");
       l += strf(" backup=%d", (P == "C06" || P == "C16") ? (int)pr.chance(2, 5) : 0);
     } else if (op == "compile") {
       static const char *t06[] = {"default", "default", "default", "avx", "sse", "mmx", "null"};
@@ -344,6 +348,12 @@ static std::vector<std::string> hist_gen(const GenArgs &ga) {
       l += strf(" s=%d ds=%llu", s, (unsigned long long)(dr.next() >> 20));
     }
     pl.push_back(l);
+    if (float_watch && i == nops / 2) {
+      // an ordinary float kernel runs natively in the middle of the history
+      pl.push_back("op new spec=fixed:addf backup=0");
+      pl.push_back("op compile p=999999 target=default fmask=0xffffffff");
+      pl.push_back(strf("op run p=999999 mode=exec n=40 ds=%llu", (unsigned long long)(dr.next() >> 20)));
+    }
   }
   if (P == "C17") {
     // every subject is compiled at least twice more at the end, after the whole history
@@ -382,6 +392,8 @@ struct Prog {
   int id = 0;
   bool broken = false;   // an instruction with mismatching sizes was appended
   int appended = 0;
+  std::shared_ptr<Twin> pending_twin;  // reference for the edited program; takes over at the next compile
+                                       // (until then the code compiled before the edit is what runs)
 };
 struct CodeObj {
   OrcCode *c = nullptr;
@@ -602,8 +614,8 @@ static void do_run(State &st, Prog *pp, CodeObj *co, const std::string &mode_s, 
   int slot = pp ? pp->backup_slot : co->backup_slot;
   bool native = pp ? pp->fn.native : co->fn.native;
   RunData act, ref;
-  make_inputs(meta, ds, n, act);
-  make_inputs(meta, ds, n, ref);
+  make_inputs(meta, ds, n, act, mode == RUN_EMULATE);
+  make_inputs(meta, ds, n, ref, mode == RUN_EMULATE);
   g_cur_slot = slot;
   g_cur_twin = twin;
   int before = slot >= 0 ? g_backup_calls[slot] : 0;
@@ -611,7 +623,7 @@ static void do_run(State &st, Prog *pp, CodeObj *co, const std::string &mode_s, 
   run_with(pp ? pp->p : nullptr, pp ? nullptr : co->c, meta, mode, act);
   int delta = slot >= 0 ? g_backup_calls[slot] - before : 0;
   g_cur_slot = -1;
-  run_with(twin, nullptr, meta, RUN_EMULATE, ref);
+  reference_emulate(twin, meta, ref);
   std::string diff = compare_outputs(meta, act, ref);
   uint64_t oh = hash_outputs(meta, act);
   c.event("  ran %s mode=%s native=%d n=%d m=%d backup_delta=%d out=%016llx", meta.name.c_str(), mode_s.c_str(), native,
@@ -644,7 +656,7 @@ static void do_run(State &st, Prog *pp, CodeObj *co, const std::string &mode_s, 
   if (st.O("det")) {
     // repeated runs of the same code on the same inputs give the same outputs
     RunData again;
-    make_inputs(meta, ds, n, again);
+    make_inputs(meta, ds, n, again, mode == RUN_EMULATE);
     // ... whatever state the executor structure was in before (fresh and zeroed, or holding the leftovers of
     // earlier calls, as the uninitialised executors of generated wrappers do)
     again.exstyle = again.exstyle == 1 ? 0 : 1;
@@ -878,6 +890,7 @@ static void hist_run(const std::vector<std::string> &plan, Child &c) {
           p.target = tname;
           p.runnable = !fatal;
           p.fn = Func();
+          if (p.pending_twin) { p.twin = p.pending_twin; p.pending_twin.reset(); }
           if (st.O("class")) {
             if (!fatal && !code)
               c.violation("classification", "nonfatal-without-code", strf("compile of %s returned %#x (not fatal) but the program has no code object to emulate", p.meta.name.c_str(), res));
@@ -949,14 +962,21 @@ static void hist_run(const std::vector<std::string> &plan, Child &c) {
         if (dsize == 0 || p.p->n_insns > 40 || p.broken) { c.event("  skip"); continue; }
         if (kv(w, "kind", "good") == "good") {
           // d1 = copy d1: the value is unchanged, the program (and its twin) have one more instruction
+          // d1 = d1 ^ s_k for a source of the same size (the function changes, so code left over from before
+          // the edit would compute the wrong thing); d1 = copy d1 if there is no such source
           const char *cp = dsize == 1 ? "copyb" : dsize == 2 ? "copyw" : dsize == 4 ? "copyl" : "copyq";
-          orc_program_append_2(p.p, cp, 0, ORC_VAR_D1, ORC_VAR_D1, 0, 0);
+          int xs = 0;
+          for (int v = ORC_VAR_S1; v <= ORC_VAR_S8; v++) if (p.meta.vars[v].size == dsize && !p.meta.has_float) { xs = v; break; }
+          if (xs) cp = dsize == 1 ? "xorb" : dsize == 2 ? "xorw" : dsize == 4 ? "xorl" : "xorq";
+          orc_program_append_2(p.p, cp, 0, ORC_VAR_D1, ORC_VAR_D1, xs, 0);
           // the twin is shared with code objects taken earlier: those keep the old reference
           ProgMeta tm;
           OrcProgram *t2 = build_program(p.meta.spec, p.meta.name + "_twin", &tm);
-          for (int k = tm.n_insns; k < p.p->n_insns; k++) orc_program_append_2(t2, cp, 0, ORC_VAR_D1, ORC_VAR_D1, 0, 0);
+          // replay every edit made so far on the fresh twin (same opcode and operands as recorded in the program)
+          for (int k = tm.n_insns; k < p.p->n_insns; k++)
+            orc_program_append_2(t2, p.p->insns[k].opcode->name, 0, ORC_VAR_D1, ORC_VAR_D1, p.p->insns[k].src_args[1], 0);
           orc_program_compile_full(t2, nullptr, 0);
-          p.twin = std::make_shared<Twin>(t2);
+          p.pending_twin = std::make_shared<Twin>(t2);
           p.appended++;
           c.count("op.append_good");
         } else {
@@ -1140,7 +1160,42 @@ static void hist_run(const std::vector<std::string> &plan, Child &c) {
             c.event("  subject %zu out=%016llx", si, (unsigned long long)ha);
             if (ha != hb) c.violation("determinism", "repeated-run-differs", strf("subject %zu: two runs of the same code on the same inputs differ", si));
             c.count("subject.runs");
+            // ... and regardless of what was compiled, run or freed before: the same fixed inputs at every point of
+            // the history must give the outputs they gave the first time
+            RunData pr3;
+            make_inputs(meta, mix2(0x9e0be, si), 0, pr3);
+            run_with(p, nullptr, meta, RUN_EXEC, pr3);
+            uint64_t hp = hash_outputs(meta, pr3);
+            if (!s.have_out) { s.out_hash = hp; s.have_out = true; }
+            else if (hp != s.out_hash)
+              c.violation("determinism", "result-depends-on-history", strf("subject %zu (%s [%s] target %s): the same code run on the same inputs gives different outputs at history point %zu than the first time", si, s.spec.c_str(), meta.opnames.c_str(), s.target.c_str(), oi));
           }
+        }
+        // an edited program compiles to what a freshly built program with the same instructions compiles to
+        // (nothing left over from the compile before the edit)
+        // (only after a successful compile: a program that carries an error text refuses to be recompiled
+        // without a reset, by design)
+        if (st.O("det") && (kvu(w, "ds") & 2) && meta.vars[ORC_VAR_D1].size && p->n_insns < 40 && !strcmp(orc_program_get_error(p), "") && p->orccode) {
+          int dsize = meta.vars[ORC_VAR_D1].size, xs = 0;
+          for (int v = ORC_VAR_S1; v <= ORC_VAR_S8; v++) if (meta.vars[v].size == dsize && !meta.has_float) { xs = v; break; }
+          const char *opn = xs ? (dsize == 1 ? "xorb" : dsize == 2 ? "xorw" : dsize == 4 ? "xorl" : "xorq")
+                               : (dsize == 1 ? "copyb" : dsize == 2 ? "copyw" : dsize == 4 ? "copyl" : "copyq");
+          ProgMeta fm;
+          OrcProgram *fresh = build_program(s.spec, strf("subj%zu", si), &fm);
+          orc_program_append_2(fresh, opn, 0, ORC_VAR_D1, ORC_VAR_D1, xs, 0);
+          orc_program_append_2(p, opn, 0, ORC_VAR_D1, ORC_VAR_D1, xs, 0);
+          fs::begin_op({});
+          int r1 = orc_program_compile_full(p, t, flags);
+          int r2 = orc_program_compile_full(fresh, t, flags);
+          fs::OpStats es = fs::end_op();
+          bool refused = es.policy_failures > 0 || es.fired > 0;
+          auto hcode = [](OrcProgram *q) { return q->orccode && q->orccode->chunk ? fnv(q->orccode->code, q->orccode->code_size) : 0ULL; };
+          auto hasm = [](OrcProgram *q) { const char *a = orc_program_get_asm_code(q); return a ? fnv(a, strlen(a)) : 0ULL; };
+          c.count("subject.edited_recompiles");
+          if (!refused && (r1 != r2 || hcode(p) != hcode(fresh) || hasm(p) != hasm(fresh)))
+            c.violation("determinism", "edited-program-compiles-differently",
+                        strf("subject %zu: after appending %s and recompiling, result/code/listing (%#x) differ from a freshly built program with the same instructions (%#x)", si, opn, r1, r2));
+          orc_program_free(fresh);
         }
         orc_program_free(p);
       }
